@@ -46,6 +46,7 @@ type Opts struct {
 	NoRandom         bool     // no random routers (outputs comparable across executions without a pinned random source)
 	NoGeneratedIDs   bool     // no templates that print engine-generated UUIDs (ticket UUIDs): for checks that cannot pin the UUID source
 	LocationHeavy    bool     // half of the router cases are location tests (shared location hierarchy)
+	ActionBias       []string // action types that make up a third of the drawn actions (where the flow type allows them)
 	CaseBias         []string // router test types that make up half of the drawn cases
 	BrokenFlow       bool     // the assets may hold a flow whose definition does not load (target of enter_flow actions only)
 	ChainHeavy       bool     // half of the worlds are straight chains: 2-3 actions per node, every exit leads to the next node, few waits - every run executes every node, so concurrent runs of one flow use each shared structure at about the same time
@@ -116,6 +117,7 @@ var DefaultGroupQueries = []string{
 	`created_on > "2015-06-01"`, `created_on < "2015-06-01"`, `tickets > 0`, `tickets = 0`, `dob < "2000-01-01"`, `dob != ""`,
 	`joined = "2018-01-01"`, `nick = "bobby" OR gender = "female"`, `(age > 10 AND age < 20) OR name ~ "ann"`, `state = "Kigali City"`,
 	`nick != "x"`, `language != "eng"`, `tel != "+250788123456"`, `tel = "+250788000111"`, `urn != "bob"`, `twitter = "bob"`,
+	`created_on = "2015-06-01"`, `created_on <= "2015-05-31"`, `created_on >= "2020-03-01"`, `dob >= "2000-01-01"`, `dob = "1999-12-31"`, `joined != "2018-01-01"`, `joined < "2018-01-01"`, `last_seen_on <= "2019-01-01"`,
 	`district = "Gasabo"`, `district = ""`, `ward = "Gisozi"`, `state != ""`, `state = "Eastern Province"`, `district != "Centre"`,
 }
 
@@ -326,6 +328,17 @@ func (g *gen) action(flowType string, flowUUIDs []string, flowNames []string) M 
 		}
 	}
 	typ := rapid.SampledFrom(types).Draw(g.t, "actiontype")
+	if len(g.o.ActionBias) > 0 && rapid.IntRange(0, 2).Draw(g.t, "biasedaction") == 0 {
+		biased := []string{}
+		for _, a := range g.o.ActionBias {
+			if contains(types, a) {
+				biased = append(biased, a)
+			}
+		}
+		if len(biased) > 0 {
+			typ = rapid.SampledFrom(biased).Draw(g.t, "biasedactiontype")
+		}
+	}
 	if g.o.SubflowHeavy && contains(types, "enter_flow") && rapid.IntRange(0, 2).Draw(g.t, "forceenter") == 0 {
 		typ = "enter_flow"
 	}
@@ -497,6 +510,12 @@ func (g *gen) action(flowType string, flowUUIDs []string, flowNames []string) M 
 		a["text"] = g.template()
 		if a["text"] == "" {
 			a["text"] = "broadcast"
+		}
+		if rapid.IntRange(0, 2).Draw(g.t, "bcqr") == 0 {
+			a["quick_replies"] = []string{g.template(), "No"}
+		}
+		if rapid.IntRange(0, 3).Draw(g.t, "bcatt") == 0 {
+			a["attachments"] = []string{rapid.SampledFrom([]string{"image/jpeg:http://mock/a.jpg", "image:http://mock/@(url_encode(contact.name)).jpg", "image/jpeg:@(repeat(\"x\", 2100))"}).Draw(g.t, "bcattachment")}
 		}
 		switch rapid.IntRange(0, 4).Draw(g.t, "bcto") {
 		case 0:
